@@ -1,12 +1,20 @@
 import PMH.Model.JaccardBounds
 import PMH.Proofs.RealAnalysis
+import PMH.Proofs.SskLaw
 /-!
 # C07 — the Jaccard-bounds function is total on `[0,1]`, ordered, and contains `J` under the collision model
 
 Model: `PMH.jaccardBoundsG` (`Model/JaccardBounds.lean`), transcription of
 `SetSketchParams::get_jaccard_bounds`, instantiated at `ℝ` with `Real.rpow`, `Real.sqrt`, `max`, `min`.
-Not mechanised: that register collisions of real sketches follow the collision model `P` (the first
-sentence of the property) — a statement about the distribution of hash values.
+First sentence of the property (`Proofs/SskLaw.lean`, Mathlib measure theory): with the register of a set at a
+position = maximum over its items of `level x = clamp(⌊1 − log_b x⌋, 0, q+1)` (the SetSketch refinement, C04/C05)
+and per-item values `Exp(a)`, independent across items, the probability that two sets show the same register
+is an explicit finite sum `Pcoll b a q |A\B| |B\A| |A∩B|` — a function of the base, the rate, the register
+range and the three cardinalities ONLY; the expected fraction of equal registers is `Pcoll` whatever the
+dependence across positions; and the code's generation scheme (spacings `E_l/(a(m−l))` assigned to positions by
+an independent uniform permutation) gives every position exactly the `Exp(a)` law.
+Not mechanised: the relation between the exact `Pcoll` and the paper's closed-form approximation used by
+`get_jaccard_bounds` (hence the 1e-4 slack of the property, checked numerically by the harness).
 -/
 namespace PMH.C07
 open PMH PMH.RA
@@ -41,5 +49,48 @@ theorem bounds_contain_J (b u v J : ℝ) (hb : 1 < b) (hu : 0 ≤ u) (hv : 0 ≤
     ∃ lo hi, jaccardBoundsG realBOps b (collisionP b u v J) = .ok (lo, hi) ∧ lo ≤ J ∧ J ≤ hi := by
   obtain ⟨c1, c2⟩ := RA.bounds_contain b u v J hb hu hv huv hJ h1 h2
   refine ⟨_, _, model_eq b _ hP, le_trans (min_le_left _ _) c1, c2⟩
+
+
+/-! ### first sentence: the collision probability of SetSketch registers -/
+section Law
+open MeasureTheory ProbabilityTheory PMH.SskLaw
+variable {ι : Type} [Fintype ι] [DecidableEq ι]
+
+/-- **C07 (d)** law of the register of a set of `n` items: `P(register ≤ k) = exp(−a n b^{−k})` for `k ≤ q`, 1 above -/
+theorem register_distribution {b a : ℝ} (hb : 1 < b) (ha : 0 < a) (q : ℕ) (S : Finset ι) (k : ℕ) :
+    μ a ι {x | reg b q S x ≤ k} = ENNReal.ofReal (G b a q S.card k) := maxlevel_cdf hb ha q S k
+
+/-- **C07 (e)** collision probability of one register of two sets -/
+theorem register_collision_probability {b a : ℝ} (hb : 1 < b) (ha : 0 < a) (q : ℕ) (A B : Finset ι) :
+    (μ a ι).real {x | reg b q A x = reg b q B x} = Pcoll b a q (A \ B).card (B \ A).card (A ∩ B).card :=
+  collision_probability hb ha q A B
+
+/-- … which is determined by the base, the rate, the register range and the three cardinalities only -/
+theorem collision_determined_by_cardinalities {ι' : Type} [Fintype ι'] [DecidableEq ι']
+    {b a : ℝ} (hb : 1 < b) (ha : 0 < a) (q : ℕ) (A B : Finset ι) (A' B' : Finset ι')
+    (h1 : (A \ B).card = (A' \ B').card) (h2 : (B \ A).card = (B' \ A').card)
+    (h3 : (A ∩ B).card = (A' ∩ B').card) :
+    (μ a ι).real {x | reg b q A x = reg b q B x} = (μ a ι').real {x | reg b q A' x = reg b q B' x} :=
+  collision_depends_only_on_cardinalities hb ha q A B A' B' h1 h2 h3
+
+open Classical in
+/-- **C07 (f)** the expected FRACTION of equal registers is `Pcoll` (positions may depend on each other) -/
+theorem expected_fraction_of_equal_registers {Ω : Type} [MeasurableSpace Ω] (P : Measure Ω) [IsProbabilityMeasure P]
+    {b a : ℝ} (hb : 1 < b) (ha : 0 < a) (q : ℕ) {m : ℕ} (hm : 0 < m) (X : Fin m → Ω → ι → ℝ)
+    (hX : ∀ p, Measurable (X p)) (hlaw : ∀ p, P.map (X p) = μ a ι) (A B : Finset ι) :
+    ∫ ω, ((Finset.univ.filter fun p => reg b q A (X p ω) = reg b q B (X p ω)).card : ℝ) / m ∂P
+      = Pcoll b a q (A \ B).card (B \ A).card (A ∩ B).card :=
+  SskLaw.expected_fraction P hb ha q hm X hX hlaw A B
+
+/-- **C07 (g)** the code's generation scheme: the value seen by a fixed position (the `j`-th spacing sum with `j`
+uniform) has survival function `exp(−a t)` — every position sees an `Exp(a)` value per item -/
+theorem position_sees_exponential {a : ℝ} (ha : 0 < a) {m : ℕ} (hm : 0 < m) {t : ℝ} (ht : 0 ≤ t) :
+    (1 / (m : ℝ)) * ∑ j : Fin m, (μ 1 (Fin m)).real {E | t < xs a m j E} = Real.exp (-(a * t)) :=
+  position_survival ha hm ht
+
+/-- sanity: identical sets always collide; a two-level example -/
+example (b a : ℝ) (q n3 : ℕ) : Pcoll b a q 0 0 n3 = 1 := Pcoll_identical b a q n3
+example : Pcoll 2 1 0 1 1 0 = Real.exp (-1) ^ 2 + (1 - Real.exp (-1)) ^ 2 := Pcoll_example
+end Law
 
 end PMH.C07
